@@ -42,6 +42,11 @@ type planner struct {
 	counter *int
 	edits   []Edit
 	log     []string
+	// closures: local variables bound once to a function literal and only ever called
+	closures map[*types.Var]*ast.FuncLit
+	closDef  map[*types.Var]ast.Stmt // the defining statement
+	closKeep map[*types.Var]bool     // a `_ = name` keep-alive already follows the definition
+	closCall map[*types.Var]int      // number of remaining call sites
 }
 
 // Plan computes one round of inlining edits for the given packages.  isAnchor says which functions must stay.
@@ -50,7 +55,7 @@ func Plan(pkgs []*packages.Package, src map[string][]byte, isAnchor func(*types.
 	var all []Edit
 	var log []string
 	for _, p := range pkgs {
-		pl := &planner{pkg: p, fset: p.Fset, info: p.TypesInfo, src: src, decls: map[*types.Func]*ast.FuncDecl{}, fileOf: map[*ast.FuncDecl]*ast.File{}, cand: map[*types.Func]bool{}, counter: counter}
+		pl := &planner{pkg: p, fset: p.Fset, info: p.TypesInfo, src: src, decls: map[*types.Func]*ast.FuncDecl{}, fileOf: map[*ast.FuncDecl]*ast.File{}, cand: map[*types.Func]bool{}, counter: counter, closures: map[*types.Var]*ast.FuncLit{}, closDef: map[*types.Var]ast.Stmt{}, closKeep: map[*types.Var]bool{}, closCall: map[*types.Var]int{}}
 		for _, f := range p.Syntax {
 			for _, d := range f.Decls {
 				if fd, ok := d.(*ast.FuncDecl); ok {
@@ -62,6 +67,7 @@ func Plan(pkgs []*packages.Package, src map[string][]byte, isAnchor func(*types.
 			}
 		}
 		pl.findCandidates(isAnchor)
+		pl.findClosures()
 		for _, f := range p.Syntax {
 			for _, d := range f.Decls {
 				if fd, ok := d.(*ast.FuncDecl); ok && fd.Body != nil {
@@ -143,6 +149,158 @@ func (pl *planner) findCandidates(isAnchor func(*types.Func) bool) {
 		}
 		pl.cand[obj] = true
 	}
+}
+
+// findClosures: `name := func(…) … { … }` where name is never reassigned, never passed on and only ever called
+// (apart from a `_ = name` keep-alive), and the literal has no defer/go/recover and does not call itself.
+func (pl *planner) findClosures() {
+	for _, f := range pl.pkg.Syntax {
+		ast.Inspect(f, func(n ast.Node) bool {
+			as, ok := n.(*ast.AssignStmt)
+			if !ok || as.Tok != token.DEFINE || len(as.Lhs) != 1 || len(as.Rhs) != 1 {
+				return true
+			}
+			id, ok := as.Lhs[0].(*ast.Ident)
+			fl, ok2 := as.Rhs[0].(*ast.FuncLit)
+			if !ok || !ok2 {
+				return true
+			}
+			v, ok := pl.info.Defs[id].(*types.Var)
+			if !ok {
+				return true
+			}
+			pl.closures[v] = fl
+			pl.closDef[v] = as
+			return true
+		})
+	}
+	if len(pl.closures) == 0 {
+		return
+	}
+	// every use must be the function of a call, or the right-hand side of `_ = name`
+	for _, f := range pl.pkg.Syntax {
+		var stack []ast.Node
+		ast.Inspect(f, func(n ast.Node) bool {
+			if n == nil {
+				stack = stack[:len(stack)-1]
+				return true
+			}
+			stack = append(stack, n)
+			id, ok := n.(*ast.Ident)
+			if !ok {
+				return true
+			}
+			v, ok := pl.info.Uses[id].(*types.Var)
+			if !ok || pl.closures[v] == nil {
+				return true
+			}
+			parent := stack[len(stack)-2]
+			switch p := parent.(type) {
+			case *ast.CallExpr:
+				if ast.Unparen(p.Fun) == ast.Expr(id) {
+					pl.closCall[v]++
+					// a call inside the literal itself is recursion
+					fl := pl.closures[v]
+					if id.Pos() >= fl.Pos() && id.Pos() < fl.End() {
+						delete(pl.closures, v)
+					}
+					return true
+				}
+			case *ast.AssignStmt:
+				if len(p.Lhs) == 1 && len(p.Rhs) == 1 && p.Rhs[0] == ast.Expr(id) {
+					if l, ok := p.Lhs[0].(*ast.Ident); ok && l.Name == "_" {
+						pl.closKeep[v] = true
+						return true
+					}
+				}
+			}
+			delete(pl.closures, v)
+			return true
+		})
+	}
+	// a closure whose every call has been inlined keeps only a stub body, so that it no longer captures anything
+	for v, fl := range pl.closures {
+		if pl.closCall[v] != 0 || !pl.closKeep[v] || len(fl.Body.List) == 0 {
+			continue
+		}
+		sig, ok := v.Type().(*types.Signature)
+		if !ok {
+			continue
+		}
+		var file *ast.File
+		for _, f := range pl.pkg.Syntax {
+			if f.Pos() <= fl.Pos() && fl.Pos() < f.End() {
+				file = f
+			}
+		}
+		if file == nil {
+			continue
+		}
+		stub := "{"
+		var zs []string
+		okT := true
+		for i := 0; i < sig.Results().Len(); i++ {
+			ts, ok := pl.typeString(sig.Results().At(i).Type(), file)
+			if !ok {
+				okT = false
+			}
+			stub += fmt.Sprintf(" var z%d_stub %s;", i, ts)
+			zs = append(zs, fmt.Sprintf("z%d_stub", i))
+		}
+		if !okT {
+			continue
+		}
+		// already a stub?
+		if len(fl.Body.List) > 0 {
+			if ds, ok := fl.Body.List[0].(*ast.DeclStmt); ok {
+				if gd, ok := ds.Decl.(*ast.GenDecl); ok && len(gd.Specs) == 1 {
+					if vs, ok := gd.Specs[0].(*ast.ValueSpec); ok && len(vs.Names) == 1 && strings.HasSuffix(vs.Names[0].Name, "_stub") {
+						continue
+					}
+				}
+			}
+		}
+		if len(zs) > 0 {
+			stub += " return " + strings.Join(zs, ", ")
+		}
+		stub += " }"
+		// parameters must stay used-agnostic: unused parameters are legal in Go
+		*pl.counter++
+		fn := pl.fset.PositionFor(fl.Body.Pos(), false).Filename
+		pl.edits = append(pl.edits, Edit{File: fn, Start: pl.offset(fl.Body.Pos()), End: pl.offset(fl.Body.End()), Text: stub + pl.lineDirective(fl.Body.End()), Site: "closure " + v.Name() + " reduced to a stub (all calls inlined)", group: *pl.counter})
+		delete(pl.closures, v)
+	}
+	for v, fl := range pl.closures {
+		bad := false
+		ast.Inspect(fl.Body, func(n ast.Node) bool {
+			switch x := n.(type) {
+			case *ast.DeferStmt, *ast.GoStmt:
+				bad = true
+			case *ast.BranchStmt:
+				if x.Tok == token.GOTO {
+					bad = true
+				}
+			case *ast.CallExpr:
+				if id, ok := x.Fun.(*ast.Ident); ok && id.Name == "recover" {
+					bad = true
+				}
+			}
+			return !bad
+		})
+		if bad {
+			delete(pl.closures, v)
+		}
+	}
+}
+
+// closureCallee resolves a call of a local closure variable (nil otherwise).
+func (pl *planner) closureCallee(c *ast.CallExpr) *types.Var {
+	if id, ok := ast.Unparen(c.Fun).(*ast.Ident); ok {
+		if v, ok := pl.info.Uses[id].(*types.Var); ok && pl.closures[v] != nil {
+			return v
+		}
+	}
+	return nil
 }
 
 func recvBase(e ast.Expr) ast.Expr {
@@ -334,7 +492,7 @@ func (pl *planner) firstCall(e ast.Expr) (call *ast.CallExpr, blocked bool) {
 	case *ast.CompositeLit:
 		return seq(x.Elts...)
 	case *ast.CallExpr:
-		if callee := pl.staticCallee(x); callee != nil && pl.cand[callee] {
+		if callee := pl.staticCallee(x); (callee != nil && pl.cand[callee]) || pl.closureCallee(x) != nil {
 			// arguments are moved with the call; they must not hide an earlier candidate call (next round)
 			var pre []ast.Expr
 			if sel, ok := ast.Unparen(x.Fun).(*ast.SelectorExpr); ok {
@@ -373,7 +531,7 @@ func (pl *planner) hasCandidate(e ast.Expr) bool {
 	found := false
 	ast.Inspect(e, func(n ast.Node) bool {
 		if c, ok := n.(*ast.CallExpr); ok {
-			if callee := pl.staticCallee(c); callee != nil && pl.cand[callee] {
+			if callee := pl.staticCallee(c); (callee != nil && pl.cand[callee]) || pl.closureCallee(c) != nil {
 				found = true
 			}
 		}
@@ -536,16 +694,45 @@ func (pl *planner) typeString(t types.Type, file *ast.File) (string, bool) {
 }
 
 func (pl *planner) inline(fd *ast.FuncDecl, file *ast.File, s ast.Stmt, insertAt token.Pos, call *ast.CallExpr, wholeStmt bool, cond *ast.BinaryExpr) {
-	callee := pl.staticCallee(call)
-	cd := pl.decls[callee]
-	cfile := pl.fileOf[cd]
-	sig := callee.Type().(*types.Signature)
+	// the callee: a declared function / method, or a local closure
+	type target struct {
+		name       string
+		typ        *ast.FuncType
+		body       *ast.BlockStmt
+		recv       *ast.FieldList
+		sig        *types.Signature
+		start, end token.Pos
+		self       types.Object
+	}
+	var cd target
+	if callee := pl.staticCallee(call); callee != nil && pl.cand[callee] {
+		d := pl.decls[callee]
+		cd = target{callee.Name(), d.Type, d.Body, d.Recv, callee.Type().(*types.Signature), d.Pos(), d.End(), callee}
+	} else if v := pl.closureCallee(call); v != nil {
+		fl := pl.closures[v]
+		sg, ok := v.Type().(*types.Signature)
+		if !ok {
+			return
+		}
+		if !pl.closKeep[v] {
+			// once every call is inlined the variable would be unused: keep it alive
+			pl.closKeep[v] = true
+			*pl.counter++
+			def := pl.closDef[v]
+			fn := pl.fset.PositionFor(def.Pos(), false).Filename
+			pl.edits = append(pl.edits, Edit{File: fn, Start: pl.offset(def.End()), End: pl.offset(def.End()), Text: "; _ = " + v.Name() + pl.lineDirective(def.End()), Site: "keep " + v.Name(), group: *pl.counter})
+		}
+		cd = target{v.Name(), fl.Type, fl.Body, nil, sg, fl.Pos(), fl.End(), v}
+	} else {
+		return
+	}
+	sig := cd.sig
 	fname := pl.fset.PositionFor(s.Pos(), false).Filename
-	csrc := pl.src[pl.fset.PositionFor(cd.Pos(), false).Filename]
+	csrc := pl.src[pl.fset.PositionFor(cd.start, false).Filename]
 	if csrc == nil || pl.src[fname] == nil {
 		return
 	}
-	site := fmt.Sprintf("%s: call of %s at %s", fd.Name.Name, callee.Name(), pl.fset.Position(call.Pos()))
+	site := fmt.Sprintf("%s: call of %s at %s", fd.Name.Name, cd.name, pl.fset.Position(call.Pos()))
 	fail := func(why string) { pl.log = append(pl.log, "not inlined: "+site+": "+why) }
 	if call.Ellipsis.IsValid() && !sig.Variadic() {
 		fail("ellipsis on a non-variadic call")
@@ -563,14 +750,14 @@ func (pl *planner) inline(fd *ast.FuncDecl, file *ast.File, s ast.Stmt, insertAt
 
 	// --- callee body with renames and return rewriting
 	inCallee := func(o types.Object) bool {
-		return o != nil && o.Pos() >= cd.Pos() && o.Pos() < cd.End() && o != types.Object(callee)
+		return o != nil && o.Pos() >= cd.start && o.Pos() < cd.end && o != cd.self
 	}
 	type ed struct {
 		start, end int
 		text       string
 	}
 	var eds []ed
-	bodyStart, bodyEnd := pl.offset(cd.Body.Lbrace)+1, pl.offset(cd.Body.Rbrace)
+	bodyStart, bodyEnd := pl.offset(cd.body.Lbrace)+1, pl.offset(cd.body.Rbrace)
 	okFree := true
 	whyFree := ""
 	// result variables
@@ -578,7 +765,7 @@ func (pl *planner) inline(fd *ast.FuncDecl, file *ast.File, s ast.Stmt, insertAt
 	var resDecl []string
 	if sig.Results() != nil {
 		i := 0
-		for _, f := range resultFields(cd) {
+		for _, f := range resultFields(cd.typ) {
 			names := f.names
 			if len(names) == 0 {
 				names = []*ast.Ident{nil}
@@ -680,7 +867,7 @@ func (pl *planner) inline(fd *ast.FuncDecl, file *ast.File, s ast.Stmt, insertAt
 			return true
 		})
 	}
-	walk(cd.Body, false)
+	walk(cd.body, false)
 	if !okFree {
 		fail("identifier " + whyFree + " means something else at the call site")
 		return
@@ -711,7 +898,7 @@ func (pl *planner) inline(fd *ast.FuncDecl, file *ast.File, s ast.Stmt, insertAt
 	var pre strings.Builder
 	src := pl.src[fname]
 	text := func(e ast.Expr) string { return string(src[pl.offset(e.Pos()):pl.offset(e.End())]) }
-	if cd.Recv != nil && len(cd.Recv.List) == 1 {
+	if cd.recv != nil && len(cd.recv.List) == 1 {
 		sel, ok := ast.Unparen(call.Fun).(*ast.SelectorExpr)
 		if !ok {
 			fail("method called without a selector")
@@ -729,8 +916,8 @@ func (pl *planner) inline(fd *ast.FuncDecl, file *ast.File, s ast.Stmt, insertAt
 			expr = "*" + expr
 		}
 		rn := ""
-		if len(cd.Recv.List[0].Names) == 1 {
-			rn = cd.Recv.List[0].Names[0].Name
+		if len(cd.recv.List[0].Names) == 1 {
+			rn = cd.recv.List[0].Names[0].Name
 		}
 		if rn == "" || rn == "_" {
 			fmt.Fprintf(&pre, "_ = %s; ", expr)
@@ -740,7 +927,7 @@ func (pl *planner) inline(fd *ast.FuncDecl, file *ast.File, s ast.Stmt, insertAt
 	}
 	np := sig.Params().Len()
 	pi := 0
-	for _, f := range cd.Type.Params.List {
+	for _, f := range cd.typ.Params.List {
 		names := f.Names
 		if len(names) == 0 {
 			names = []*ast.Ident{nil}
@@ -794,8 +981,7 @@ func (pl *planner) inline(fd *ast.FuncDecl, file *ast.File, s ast.Stmt, insertAt
 	for _, d := range resDecl {
 		pre.WriteString(d)
 	}
-	_ = cfile
-	fmt.Fprintf(&pre, "%s: for { %s%s\n; break %s }; ", label, pl.lineDirective(cd.Body.Lbrace+1), body.String(), label)
+	fmt.Fprintf(&pre, "%s: for { %s%s\n; break %s }; ", label, pl.lineDirective(cd.body.Lbrace+1), body.String(), label)
 
 	// --- the edits
 	if cond != nil {
@@ -842,12 +1028,12 @@ type resField struct {
 	names []*ast.Ident
 }
 
-func resultFields(fd *ast.FuncDecl) []resField {
+func resultFields(t *ast.FuncType) []resField {
 	var out []resField
-	if fd.Type.Results == nil {
+	if t.Results == nil {
 		return nil
 	}
-	for _, f := range fd.Type.Results.List {
+	for _, f := range t.Results.List {
 		out = append(out, resField{f.Names})
 	}
 	return out
